@@ -426,6 +426,13 @@ class AttributeCollection(MutableMapping[int, Attribute]):
 
             data = data[offset:]
 
+            # RFC 7606 section 4: an attribute whose length runs past the attribute block
+            # is malformed (a slice would quietly hand the decoder a shorter value), and
+            # nothing after it can be located: treat-as-withdraw and stop the walk
+            if length > len(data):
+                self.add(TreatAsWithdraw(aid))
+                return self
+
             left = data[length:]
             attribute = data[:length]
 
